@@ -53,6 +53,14 @@ func classify(tag string, code int, errText string, args ...string) (viewResult,
 	return viewResult{}, true
 }
 
+// canonYear: the year of a label as a number (how many digits a year is padded to is presentation)
+func canonYear(s string) string {
+	if n, err := strconv.Atoi(s); err == nil {
+		return strconv.Itoa(n)
+	}
+	return s
+}
+
 func cellsOf(fields []string, want int) (string, bool) {
 	if len(fields) != want {
 		return "", false
@@ -148,7 +156,7 @@ func parseReport(out string, agg byte, withDiff bool) ([]string, string) {
 		}
 		if agg != 'y' {
 			if labels[0] != "" {
-				year, haveYear = labels[0], true
+				year, haveYear = canonYear(labels[0]), true
 				month = 0
 			}
 			if !haveYear {
@@ -202,7 +210,7 @@ func parseReport(out string, agg byte, withDiff bool) ([]string, string) {
 			}
 			key = fmt.Sprintf("%s-%c", year, labels[1][1])
 		case 'y':
-			key = labels[0]
+			key = canonYear(labels[0])
 		}
 		if y := strings.SplitN(strings.TrimPrefix(key, "-"), "-", 2)[0]; y != "?" && !intRe.MatchString(y) {
 			return nil, "year cell"
